@@ -123,6 +123,13 @@ func oracleC12() *Result {
 	for _, e := range chainSources {
 		add([]byte(e), "chains")
 	}
+	nn := 300
+	if opts.Tier == "thorough" {
+		nn = 5000
+	}
+	for _, b := range nestedStmtSources(rng, nn) {
+		add(b, "nested-stmts")
+	}
 	for _, s := range loadCorpus() {
 		add(s.Src, "corpus")
 		if len(s.Src) < 3000 {
